@@ -14,15 +14,16 @@ for d in sorted(os.listdir(B)):
     alarms = m.get('alarms', [])
     disp = m.get('disposition') or ('benign: all twenty checks silent' if not alarms else 'ALARM - see meta.json')
     rows.append((d, ' '.join(files), ', '.join(alarms) or '—', disp.replace('\n', ' ').replace('|', '/')))
-nB = sum(1 for r in rows if r[0].startswith('B')); nD = sum(1 for r in rows if r[0].startswith('D'))
+nB = sum(1 for r in rows if r[0].startswith('B')); nD = sum(1 for r in rows if r[0].startswith('D')); nE = sum(1 for r in rows if r[0].startswith('E'))
 silent = sum(1 for r in rows if r[2] == '—')
 with open(os.path.join(B, 'INDEX.md'), 'w') as f:
     f.write('# Behaviour-preserving changes (false-alarm test of the machinery)\n\n')
     f.write('Wave 1 (ids B..): ten sub-agents that saw only the twenty property statements each wrote up to four realistic changes meant to keep ALL properties true (themes: allocation/layout, correct lazy initialisation, decoder refactoring, search optimisation, string handling, wiping, arithmetic, dependency handling, feature logic, portability). '
             'Wave 2 (ids D..): ten further agents, same rules, asked in addition to change the NUMBER and ORDER of internal steps, allocator blocks and dependency calls as far as the properties allow. '
+            'Ids E..: four cosmetic and structural changes written by the author of the machinery on the last day (language labels renamed, registry reordered, public buffer enlarged, an internal global renamed and two getters moved into a new source file): the first of them exposed two label-dependent false alarms (C07 registry rules, ILP32 driver), both corrected. '
             'Each patch was applied to a scratch copy, the repository suite was run in the shipping and the assertion-enabled build, and all twenty quick checks were run against it (`tools/benign_run.py`; wave 2 at a reduced workload scale). '
             'A benign change must leave every check silent; an alarm is either a change that breaks a property after all (disposition says which) or a false alarm of the machinery (corrected, see DESIGN.md section 8).\n\n')
-    f.write('%d patches (%d in wave 1, %d in wave 2); %d left all twenty checks silent with the final machinery.\n\n' % (len(rows), nB, nD, silent))
+    f.write('%d patches (%d in wave 1, %d in wave 2, %d self-made); %d left all twenty checks silent with the final machinery.\n\n' % (len(rows), nB, nD, nE, silent))
     f.write('| id | files | checks that alarmed (final machinery) | disposition |\n|---|---|---|---|\n')
     for r in rows:
         f.write('| %s | %s | %s | %s |\n' % r)
